@@ -347,6 +347,7 @@ builtin_exec(spif_charptr_t param)
             close(fd);
             remove((char *) OutFile);
         }
+        FREE(Command);
         return ((spif_charptr_t) NULL);
     }
 
@@ -356,6 +357,7 @@ builtin_exec(spif_charptr_t param)
                            file_peek_path(), file_peek_line());
         close(fd);
         remove((char *) OutFile);
+        FREE(Command);
         return ((spif_charptr_t) NULL);
     }
     strcpy((char *) Command, (char *) param);
